@@ -782,7 +782,7 @@ def roi_from_points(
     _in = np.clip(np.floor(xy.min(axis=0)), -(2**62), 2**62).astype("int64") - padding
     _out = np.clip(np.ceil(xy.max(axis=0)), -(2**62), 2**62).astype("int64") + padding
 
-    if align is not None:
+    if align:  # None or 0 means no alignment
         _in = align_down(_in, align)
         _out = align_up(_out, align)
 
